@@ -39,6 +39,9 @@ struct RunRec {
     err: usize,
     bad: Vec<Bad>,
     sample: String,
+    /// the exact input bytes (hex) when something went wrong and the input is small: the replay file can then be re-run
+    #[serde(default, skip_serializing_if = "String::is_empty")]
+    hex: String,
 }
 
 const ENTRIES: &[&str] = &["str", "slice", "reader", "multi", "slice_multi", "read", "wd_str", "wd_slice", "wd_reader"];
@@ -175,7 +178,7 @@ fn applicable(entry: &str, target: &str, utf8: bool) -> bool {
 fn run_input(inp: &Input, progress: &str, started: &std::sync::Mutex<Instant>) -> RunRec {
     let bytes = from_hex(&inp.hex);
     let utf8 = std::str::from_utf8(&bytes).is_ok();
-    let mut rec = RunRec { id: inp.id.clone(), family: inp.family.clone(), len: bytes.len(), utf8, calls: 0, ok: 0, err: 0, bad: vec![], sample: String::from_utf8_lossy(&bytes[..bytes.len().min(60)]).into_owned() };
+    let mut rec = RunRec { id: inp.id.clone(), family: inp.family.clone(), len: bytes.len(), utf8, calls: 0, ok: 0, err: 0, bad: vec![], sample: String::from_utf8_lossy(&bytes[..bytes.len().min(60)]).into_owned(), hex: String::new() };
     for entry in ENTRIES {
         for target in TARGETS {
             if !applicable(entry, target, utf8) { continue; }
@@ -207,7 +210,18 @@ fn run_input(inp: &Input, progress: &str, started: &std::sync::Mutex<Instant>) -
             }
         }
     }
+    if !rec.bad.is_empty() && bytes.len() <= 4096 {
+        rec.hex = to_hex(&bytes);
+    }
     rec
+}
+/// `vh c01one --hex <hex>`: every call for one input given as hex (used to replay a record of a violation)
+pub fn run_one_hex(args: &Args) -> i32 {
+    let inp = Input { id: "one".into(), hex: args.req("hex").to_string(), family: "replay".into() };
+    let started = std::sync::Mutex::new(Instant::now());
+    let rec = run_input(&inp, "/dev/null", &started);
+    println!("{}", serde_json::to_string(&rec).unwrap());
+    0
 }
 #[derive(Debug)]
 struct IgnoredWrap;
@@ -322,6 +336,21 @@ fn build_inputs(args: &Args, rng: &mut Rng) -> Vec<Input> {
             }
         }
         push("mutated", b, &mut v);
+    }
+    // (2b) broken UTF-8 (truncated multi-byte characters, stray continuation bytes, invalid lead bytes) in every lexical context,
+    // followed by more text: the reader's character source ends at the broken sequence and must stay ended
+    {
+        let broken: [&[u8]; 9] = [b"\xc3", b"\xe2", b"\xe2\x82", b"\xf0", b"\xf0\x9d", b"\xf0\x9d\x84", b"\x80", b"\xff", b"\xc3\x28"];
+        let ctx: [(&str, &str); 10] = [("--- |\n  lit", "\n-%-- >-\n  f"), ("a: >\n  fold", "\n  more\nb: 1\n"), ("k: \"dq", " rest\"\nz: 2\n"), ("k: 'sq", " rest'\nz: 2\n"),
+                                       ("plain", " word\nnext: 1\n"), ("# comment", " tail\na: 1\n"), ("? key", "\n: v\n"), ("- [a, b", ", c]\n- d\n"), ("&anc", " v\n"), ("%TAG !e! tag:e", "\n--- !e!x 1\n")];
+        for (pre, post) in ctx {
+            for b in broken {
+                let mut v2 = pre.as_bytes().to_vec();
+                v2.extend_from_slice(b);
+                v2.extend_from_slice(post.as_bytes());
+                push("broken-utf8", v2, &mut v);
+            }
+        }
     }
     // (3) deep and wide inputs around the default nesting budget and far beyond it
     let deep: Vec<usize> = if args.num("thorough", 0) == 1 { vec![1, 50, 1999, 2000, 2001, 2500, 10_000, 100_000, 1_000_000] } else { vec![1999, 2000, 2001, 20_000] };
@@ -443,7 +472,7 @@ pub fn run(args: &Args) -> i32 {
                     let bytes = from_hex(&inp.hex);
                     recs.push(RunRec { id: inp.id.clone(), family: inp.family.clone(), len: bytes.len(), utf8: std::str::from_utf8(&bytes).is_ok(), calls: 0, ok: 0, err: 0,
                         bad: vec![Bad { entry: parts.get(1).unwrap_or(&"").to_string(), target: parts.get(2).unwrap_or(&"").to_string(), opts: parts.get(3).unwrap_or(&"").to_string(), outcome: st, detail }],
-                        sample: String::from_utf8_lossy(&bytes[..bytes.len().min(60)]).into_owned() });
+                        sample: String::from_utf8_lossy(&bytes[..bytes.len().min(60)]).into_owned(), hex: if bytes.len() <= 4096 { to_hex(&bytes) } else { String::new() } });
                     skip = k + 1;
                 }
                 for f in [&bf, &of, &pf] { let _ = std::fs::remove_file(f); }
